@@ -1,7 +1,7 @@
 //! Verification hooks, only compiled with the `verif-hooks` feature.
 //!
 //! Nothing in here is part of the public API of the crate.
-use std::sync::atomic::{AtomicUsize, Ordering};
+use std::sync::atomic::{AtomicPtr, Ordering};
 
 /// Describes the views a `MatrixSlab::alloc` call is about to create inside
 /// the slab allocation. Every view is given as `(byte offset, byte length)`
@@ -20,20 +20,23 @@ pub struct SlabReport {
     pub views: [(usize, usize); 5],
 }
 
-static SLAB_HOOK: AtomicUsize = AtomicUsize::new(0);
+static SLAB_HOOK: AtomicPtr<()> = AtomicPtr::new(std::ptr::null_mut());
 
 /// Installs (or removes) the function called by every successful `MatrixSlab::alloc`.
 pub fn set_slab_hook(hook: Option<fn(&SlabReport)>) {
-    SLAB_HOOK.store(hook.map_or(0, |hook| hook as usize), Ordering::SeqCst);
+    SLAB_HOOK.store(
+        hook.map_or(std::ptr::null_mut(), |hook| hook as *mut ()),
+        Ordering::SeqCst,
+    );
 }
 
 #[inline]
 pub(crate) fn report_slab(report: impl FnOnce() -> SlabReport) {
     let hook = SLAB_HOOK.load(Ordering::Relaxed);
-    if hook != 0 {
+    if !hook.is_null() {
         // safety: only ever written by `set_slab_hook` from a valid function pointer
         let hook: fn(&SlabReport) =
-            unsafe { std::mem::transmute::<usize, fn(&SlabReport)>(hook) };
+            unsafe { std::mem::transmute::<*mut (), fn(&SlabReport)>(hook) };
         hook(&report())
     }
 }
